@@ -571,9 +571,182 @@ fn output_probe(ctx: &Ctx, rng: &mut Rng, st: &mut St) {
     }
 }
 
+/// Field type of a definition in the definition probe.
+enum DT {
+    U8,
+    Bool,
+    /// array whose size is the constant (spelled `N` or `const { N + 0usize }`)
+    ArrN(Box<DT>, bool),
+    Arr2(Box<DT>),
+    Tup(Vec<DT>),
+}
+
+impl DT {
+    fn gen(rng: &mut Rng, depth: u32) -> DT {
+        match rng.weighted(&[2, 2, if depth > 0 { 5 } else { 0 }, if depth > 0 { 2 } else { 0 }, if depth > 0 { 5 } else { 0 }]) {
+            0 => DT::U8,
+            1 => DT::Bool,
+            2 => DT::ArrN(Box::new(DT::gen(rng, depth - 1)), rng.chance(1, 3)),
+            3 => DT::Arr2(Box::new(DT::gen(rng, depth - 1))),
+            _ => DT::Tup((0..2 + rng.usize_below(2)).map(|_| DT::gen(rng, depth - 1)).collect()),
+        }
+    }
+    /// Type text; `n`: None = with the constant, Some(n) = substituted.
+    fn ty(&self, n: Option<usize>) -> String {
+        match self {
+            DT::U8 => "u8".into(),
+            DT::Bool => "bool".into(),
+            DT::ArrN(e, as_expr) => match n {
+                Some(n) => format!("[{}; {n}]", e.ty(Some(n))),
+                None if *as_expr => format!("[{}; const {{ N + 0usize }}]", e.ty(None)),
+                None => format!("[{}; N]", e.ty(None)),
+            },
+            DT::Arr2(e) => format!("[{}; 2]", e.ty(n)),
+            DT::Tup(fs) => format!("({})", fs.iter().map(|f| f.ty(n)).collect::<Vec<_>>().join(", ")),
+        }
+    }
+    fn value(&self, rng: &mut Rng, n: usize) -> String {
+        match self {
+            DT::U8 => rng.usize_below(256).to_string(),
+            DT::Bool => if rng.bool() { "true".into() } else { "false".into() },
+            DT::ArrN(e, _) => format!("[{}]", (0..n).map(|_| e.value(rng, n)).collect::<Vec<_>>().join(", ")),
+            DT::Arr2(e) => format!("[{}, {}]", e.value(rng, n), e.value(rng, n)),
+            DT::Tup(fs) => format!("({})", fs.iter().map(|f| f.value(rng, n)).collect::<Vec<_>>().join(", ")),
+        }
+    }
+    fn bits(&self, n: usize) -> usize {
+        match self {
+            DT::U8 => 8,
+            DT::Bool => 1,
+            DT::ArrN(e, _) => n * e.bits(n),
+            DT::Arr2(e) => 2 * e.bits(n),
+            DT::Tup(fs) => fs.iter().map(|f| f.bits(n)).sum(),
+        }
+    }
+    fn mentions_const(&self) -> bool {
+        match self {
+            DT::U8 | DT::Bool => false,
+            DT::ArrN(..) => true,
+            DT::Arr2(e) => e.mentions_const(),
+            DT::Tup(fs) => fs.iter().any(|f| f.mentions_const()),
+        }
+    }
+}
+
+/// Struct and enum definitions whose fields mention the constant in arbitrary positions (directly,
+/// inside tuples next to members that do not depend on it, inside arrays of fixed size): values of
+/// the parameter types go through the literal API of the program compiled with the constant and of
+/// the substituted program, and through both circuits.
+fn definition_probe(ctx: &Ctx, rng: &mut Rng, st: &mut St) {
+    let n = if rng.chance(1, 6) { 0 } else { 1 + rng.usize_below(3) };
+    let fields: Vec<DT> = (0..1 + rng.usize_below(3)).map(|_| DT::gen(rng, 2)).collect();
+    let payload: Vec<DT> = (0..1 + rng.usize_below(2)).map(|_| DT::gen(rng, 2)).collect();
+    if !fields.iter().chain(payload.iter()).any(|f| f.mentions_const()) {
+        st.counts.inc("definition probe: no field mentions the constant (skipped)");
+        return;
+    }
+    let program = |sub: Option<usize>| {
+        let mut t = String::new();
+        if sub.is_none() {
+            t.push_str("const N: usize = PARTY_0::N;\n");
+        }
+        t.push_str(&format!("struct Row {{ {} }}\n", fields.iter().enumerate().map(|(i, f)| format!("f{i}: {}", f.ty(sub))).collect::<Vec<_>>().join(", ")));
+        t.push_str(&format!("enum Opt {{ Nothing, Some({}) }}\n", payload.iter().map(|f| f.ty(sub)).collect::<Vec<_>>().join(", ")));
+        t.push_str("pub fn main(r: Row, o: Opt, x: u8) -> (Row, Opt, u8) {\n    (r, o, x)\n}\n");
+        t
+    };
+    let (with_text, sub_text) = (program(None), program(Some(n)));
+    let row = format!("Row {{ {} }}", fields.iter().enumerate().map(|(i, f)| format!("f{i}: {}", f.value(rng, n))).collect::<Vec<_>>().join(", "));
+    let opt = if rng.chance(1, 4) { "Opt::Nothing".to_string() } else { format!("Opt::Some({})", payload.iter().map(|f| f.value(rng, n)).collect::<Vec<_>>().join(", ")) };
+    let args = [row, opt, rng.usize_below(256).to_string()];
+    let sizes = [fields.iter().map(|f| f.bits(n)).sum::<usize>(), 1 + payload.iter().map(|f| f.bits(n)).sum::<usize>(), 8];
+    let case = json!({"program": with_text, "N": n, "substituted_program": sub_text, "arguments": args});
+    let mut consts: garble_lang::GarbleConsts = HashMap::new();
+    consts.entry("PARTY_0".into()).or_default().insert("N".into(), Literal::NumUnsigned(n as u64, UnsignedNumType::Usize));
+    let a = catch(|| garble_lang::compile_with_constants(&with_text, consts));
+    let b = catch(|| garble_lang::compile(&sub_text));
+    let (a, b) = match (a, b) {
+        (Ok(Ok(a)), Ok(Ok(b))) => (a, b),
+        (Ok(Err(_)), Ok(Err(_))) => {
+            st.counts.inc("definition probe: both rejected");
+            return;
+        }
+        (a, b) => {
+            let show = |r: &Result<Result<garble_lang::GarbleProgram, garble_lang::Error>, String>| match r {
+                Ok(Ok(_)) => "compiled".to_string(),
+                Ok(Err(e)) => format!("rejected: {}", format!("{e:?}").chars().take(300).collect::<String>()),
+                Err(p) => format!("panicked: {p}"),
+            };
+            let mut case = case;
+            case["with_constants"] = json!(show(&a));
+            case["substituted"] = json!(show(&b));
+            ctx.violation("definition probe: the program with a constant in its definitions and the substituted program are not treated alike", case);
+            return;
+        }
+    };
+    let mut outs = vec![];
+    for (which, prg) in [("program with constants", &a), ("substituted program", &b)] {
+        let mut inputs: Vec<Vec<bool>> = vec![];
+        for (i, text) in args.iter().enumerate() {
+            let parsed = catch(|| prg.parse_arg(i, text).map(|arg| (arg.as_bits(), arg.as_literal())));
+            let (bits, lit) = match parsed {
+                Ok(Ok((bits, lit))) if bits.len() == sizes[i] => (bits, lit),
+                other => {
+                    let mut case = case.clone();
+                    case["outcome"] = json!(format!("{other:?}").chars().take(400).collect::<String>());
+                    case["parameter"] = json!(i);
+                    ctx.violation(&format!("definition probe: {which}: parse_arg does not accept a value of the parameter's type (or gives it the wrong size)"), case);
+                    return;
+                }
+            };
+            match catch(|| prg.literal_arg(i, lit.clone()).map(|arg| arg.as_bits())) {
+                Ok(Ok(b2)) if b2 == bits => {}
+                other => {
+                    let mut case = case.clone();
+                    case["outcome"] = json!(format!("{other:?}").chars().take(400).collect::<String>());
+                    case["parameter"] = json!(i);
+                    ctx.violation(&format!("definition probe: {which}: literal_arg refuses (or encodes differently) the value that parse_arg accepted"), case);
+                    return;
+                }
+            }
+            inputs.push(bits);
+        }
+        let out = catch(|| {
+            let out = prg.circuit.eval(&inputs);
+            let text = prg.parse_output(&out).map(|l| l.to_string());
+            (out, text)
+        });
+        match out {
+            Ok((bits, Ok(text))) => outs.push((inputs, bits, text)),
+            other => {
+                let mut case = case.clone();
+                case["outcome"] = json!(format!("{other:?}").chars().take(400).collect::<String>());
+                ctx.violation(&format!("definition probe: {which}: evaluation / parse_output fails"), case);
+                return;
+            }
+        }
+    }
+    st.counts.inc("definition probe: values compared through both programs");
+    if outs[0] != outs[1] {
+        let mut case = case;
+        case["with_constants"] = json!(outs[0].2);
+        case["substituted"] = json!(outs[1].2);
+        ctx.violation("definition probe: argument bits, output bits or decoded output differ between the program with constants and the substituted program", case);
+        return;
+    }
+    // the identity program returns the arguments: the value bits after the panic record are the inputs
+    let flat: Vec<bool> = outs[0].0.iter().flatten().copied().collect();
+    if outs[0].1.len() < flat.len() || outs[0].1[outs[0].1.len() - flat.len()..] != flat[..] {
+        ctx.violation("definition probe: the identity program does not return its argument bits", case);
+    }
+}
+
 fn one_case(ctx: &Ctx, rng: &mut Rng, st: &mut St) {
     if rng.chance(1, 10) {
         output_probe(ctx, rng, st);
+    }
+    if rng.chance(1, 6) {
+        definition_probe(ctx, rng, st);
     }
     let case = gen_case(rng);
     st.distinct.insert(crate::util::fnv(case.with_consts.as_bytes()));
